@@ -123,7 +123,7 @@ def encode_case(cid, entry, method, user, n_prior, passed, npop, computed, extra
     lines = [f"case {cid}", f"entry {entry}"]
     if method:
         lines.append(f"method {method}")
-    lines.append(f"user {1 if user else 0}")
+    lines.append(f"user {'none' if user is None else (1 if user else 0)}")
     lines.append("prov " + " ".join(f"p{i}" for i in range(n_prior)))
     for k, v in passed.items():
         jv = jsonable(v)
